@@ -416,3 +416,40 @@ func getElementTypeString(elem r.Element) string {
 	}
 	return "unknown"
 }
+
+// holdsElement - whether `target` is `root` itself or is stored somewhere inside it
+// (at any depth of lists and dictionaries)
+func holdsElement(root r.Element, target r.Element) bool {
+	if root == target {
+		return true
+	}
+	switch v := root.(type) {
+	case *Array:
+		for _, item := range v.value {
+			if holdsElement(item, target) {
+				return true
+			}
+		}
+	case *HashMap:
+		for _, item := range v.value {
+			if holdsElement(item, target) {
+				return true
+			}
+		}
+	}
+	return false
+}
+
+// refuseSelfContainment - lists and dictionaries are stored by reference: putting a
+// collection into itself (directly or inside another collection) would build a
+// value that never ends, and displaying, copying, comparing or serialising it would
+// recurse until the stack of the host process overflows.
+func refuseSelfContainment(container r.Element, newItem r.Element) error {
+	switch newItem.(type) {
+	case *Array, *HashMap:
+		if holdsElement(newItem, container) {
+			return ThrowException("不能将元组或列表放入其自身之中")
+		}
+	}
+	return nil
+}
